@@ -115,6 +115,33 @@ class PE:
             return K(self.truth(node))
         if isinstance(node, ast.IfExp):
             return self.ev(node.body if self.truth(node.test) else node.orelse)
+        if isinstance(node, ast.JoinedStr):
+            out = ""
+            for v in node.values:
+                if isinstance(v, ast.Constant):
+                    out += str(v.value)
+                elif isinstance(v, ast.FormattedValue) and v.format_spec is None and v.conversion == -1:
+                    x = self.ev(v.value)
+                    if not (isinstance(x, K) and isinstance(x.v, str)):
+                        self.err("f-string part not constant: %s" % ast.unparse(v.value)[:40], node)
+                    out += x.v
+                else:
+                    self.err("f-string with a format specification", node)
+            return K(out)
+        if isinstance(node, ast.BinOp) and isinstance(node.op, ast.Mod):
+            l = self.ev(node.left)
+            if isinstance(l, K) and isinstance(l.v, str):
+                r = self.ev(node.right)
+                if isinstance(r, K) and (isinstance(r.v, str) or (isinstance(r.v, (list, tuple)) and all(isinstance(x, str) for x in r.v))):
+                    try:
+                        return K(l.v % (tuple(r.v) if isinstance(r.v, (list, tuple)) else r.v))
+                    except (TypeError, ValueError):
+                        self.err("string formatting not decided: %s" % ast.unparse(node)[:60], node)
+        if isinstance(node, ast.BinOp) and isinstance(node.op, ast.Mult):
+            l, r = self.ev(node.left), self.ev(node.right)
+            for a, b in ((l, r), (r, l)):
+                if isinstance(a, K) and isinstance(a.v, (str, list)) and isinstance(b, RF) and b.is_const() and b.constval().denominator == 1:
+                    return K(a.v * int(b.constval()))
         if isinstance(node, ast.BinOp) and isinstance(node.op, (ast.Add, ast.Sub, ast.Mult, ast.Div)):
             l, r = self.ev(node.left), self.ev(node.right)
             if isinstance(l, RF) and isinstance(r, RF):
@@ -134,6 +161,36 @@ class PE:
                 if r is not None:
                     return r
             f = node.func
+            if isinstance(f, ast.Attribute) and f.attr == "format" and not node.keywords:
+                recv = self.ev(f.value)
+                args = [self.ev(a) for a in node.args]
+                if isinstance(recv, K) and isinstance(recv.v, str) and all(isinstance(a, K) and isinstance(a.v, str) for a in args):
+                    return K(recv.v.format(*[a.v for a in args]))
+            if isinstance(f, ast.Attribute) and f.attr == "join" and len(node.args) == 1:
+                recv = self.ev(f.value)
+                g = node.args[0]
+                if isinstance(recv, K) and isinstance(recv.v, str):
+                    items = None
+                    if isinstance(g, (ast.GeneratorExp, ast.ListComp)) and len(g.generators) == 1 and not g.generators[0].ifs and isinstance(g.generators[0].target, ast.Name):
+                        it = self.ev(g.generators[0].iter)
+                        if isinstance(it, K) and isinstance(it.v, (str, list, tuple)):
+                            items = []
+                            tname = g.generators[0].target.id
+                            saved = self.env.get(tname, self)
+                            for item in it.v:
+                                self.bind(tname, item if isinstance(item, RF) else K(item))
+                                items.append(self.ev(g.elt))
+                            if saved is self:
+                                self.env.pop(tname, None)
+                                self.alg.env.pop(tname, None)
+                            else:
+                                self.bind(tname, saved)
+                    else:
+                        v = self.ev(g)
+                        if isinstance(v, K) and isinstance(v.v, (list, tuple)):
+                            items = [K(x) for x in v.v]
+                    if items is not None and all(isinstance(x, K) and isinstance(x.v, str) for x in items):
+                        return K(recv.v.join(x.v for x in items))
             if isinstance(f, ast.Attribute) and f.attr in STR_METHODS:
                 recv = self.ev(f.value)
                 if isinstance(recv, K) and isinstance(recv.v, str):
@@ -204,6 +261,11 @@ class PE:
                 if isinstance(r, K) and r.v is None:
                     isn = isinstance(l, K) and l.v is None
                     return isn if isinstance(op, ast.Is) else not isn
+            if isinstance(l, RF) and isinstance(r, RF) and l.is_const() and r.is_const():
+                a, b = l.constval(), r.constval()
+                table = {ast.Eq: a == b, ast.NotEq: a != b, ast.Lt: a < b, ast.LtE: a <= b, ast.Gt: a > b, ast.GtE: a >= b}
+                if type(op) in table:
+                    return table[type(op)]
             if isinstance(l, K) and isinstance(r, K):
                 try:
                     if isinstance(op, ast.Eq):
